@@ -289,11 +289,14 @@ def judge(sc, r, case=None):
         return [("C22 %s harness-status" % m["label"], "harness ended with %s: %s" % (r["status"], r["raw"][-300:]))], None, "crash"
     fails = []
     if m["kind"] == "two":
-        ch = [judge_part(sc, p, r, fails) for p in m["parts"]]
+        ch = []
+        for p in m["parts"]:
+            fp_ = []
+            ch.append(judge_part(sc, p, r, fp_))
+            fails += group(p, fp_)
         changed = all(ch)
     else:
         changed = judge_part(sc, m, r, fails)
-    if m["kind"] != "two":
         fails = group(m, fails)
     seen = set()
     fails = [f for f in fails if not (f[0] in seen or seen.add(f[0]))]
